@@ -56,6 +56,13 @@ def arbiter_roles(rep, idx, rule):
         return None
     r.INTRS = INTRS
     r.intr = c.norm(('sub', INTRS, r.k))
+    # how the initiator *bus* is reached from the list element is inferred from one anchor driver (the shared cyc line) and
+    # then demanded consistently everywhere else (sibling agreement): the list may hold the buses or small records
+    anchor = c.drivers_of(c.parse("self.bus.cyc"))
+    if len(anchor) == 1:
+        v = c.norm(anchor[0].value)
+        if v[0] == 'attr' and v[2] == 'cyc' and ir.mentions(v[1], r.intr):
+            r.intr = v[1]
     r.env = {"k": r.k, "intr": r.intr, "GRANT": r.GRANT}
     r.case_k = ('formula', c.eng.frame_formula(('case', r.sid, (r.k,), 0)))
     if r.GRANT[0] != 'sig':
@@ -234,6 +241,6 @@ def add_validation(rep, idx):
     # the registration itself
     appends = [n for n in ast.walk(fi.node) if isinstance(n, ast.Call) and isinstance(n.func, ast.Attribute)
                and n.func.attr == "append" and ast.unparse(n.func.value) == "self._intrs"]
-    rep.check(len(appends) == 1 and ast.unparse(appends[0].args[0]) == "intr_bus", "C08.5", site,
-              "add() appends the initiator to the list elaborate() iterates", f"{len(appends)} append(s) to self._intrs",
-              nontrivial=False)
+    rep.form(len(appends) == 1 and ast.unparse(appends[0].args[0]) == "intr_bus", "C08.5", site,
+             "add() appends the initiator to the list elaborate() iterates", f"{len(appends)} append(s) to self._intrs",
+             wrong="the initiator is never registered" if not appends else None, nontrivial=False)
